@@ -58,6 +58,18 @@ theorem C20_metadata_cleared (cfg : Cfg) (st : St) (o : Nat) :
       split <;> simp [runActs, h]
     · exact ⟨rfl, rfl, rfl⟩
 
+/-- A coordinator request (`_send_request_to_coordinator`: join, sync, heartbeat, leave) started after close
+    fails inside the call with `ClientError` (the cached coordinator is looked up, `_get_brokerclient` refuses),
+    at the level of a whole step: the operation's result is among the step's observations.  (Fresh request
+    ids `x.r < length` hold in every reachable state.) -/
+theorem C20_srtc_after_close_fails (cfg : Cfg) (st : St) (env : Env) (o : Nat) (g : String) (mt : Option Rat) (b : Broker)
+    (hc : st.closing = true) (hg : get? g st.cache.groups = some b) (hs : ∀ x ∈ st.srtcs, x.r < st.srtcs.length) :
+    Ob.result o (.fail .clientClosed) ∈ (step cfg st env (.srtc o g mt)).2 := by
+  have hnone : List.find? (fun x => x.r == st.srtcs.length) st.srtcs = none := by
+    apply List.find?_eq_none.mpr
+    intro x hx; have := hs x hx; simp; omega
+  simp [step, hg, fuel, runActs, exec, srtcGet, hnone, issueTo, Afkak.ClientNet.getBrokerClient, hc, setSrtc]
+
 /-- New operations after close fail at once, synchronously inside the call: a metadata load reports
     `KafkaUnavailableError`, and nothing is sent. -/
 theorem C20_new_ops_fail (cfg : Cfg) (st : St) (u : Nat) (x : Unaware) (h : st.closing = true) :
@@ -122,6 +134,7 @@ C20_closed_for_ever
 C20_no_connect_in_any_callback
 C20_metadata_cleared
 C20_new_ops_fail
+C20_srtc_after_close_fails
 C20_close_awaits_bootstrap_connections_counterexample
 C20_close_awaits_bootstrap_connections_partial
 -/
